@@ -12,6 +12,7 @@ import (
 	"fmt"
 	"io"
 	"net/http/httptest"
+	"os"
 	"runtime"
 	"strings"
 
@@ -322,6 +323,29 @@ func bodyCase(ct string, flag byte, declared uint32, actual int) string {
 	return ""
 }
 
+// lyingLengthCase: a unary (Twirp-style) request that declares a Content-Length far beyond what it
+// carries (or beyond the limit): the gateway must not size anything by the declaration.
+func lyingLengthCase(ct string, declared int64, actual int) string {
+	var before, after runtime.MemStats
+	runtime.ReadMemStats(&before)
+	got := -1
+	if m := guard("gateway twirp body "+ct, func() {
+		req := httptest.NewRequest("POST", "/x", bytes.NewReader(make([]byte, actual)))
+		if ct != "" {
+			req.Header.Set("Content-Type", ct)
+		}
+		req.ContentLength = declared
+		drpchttp.New(recvHandler{&got}).ServeHTTP(httptest.NewRecorder(), req)
+	}); m != "" {
+		return m
+	}
+	runtime.ReadMemStats(&after)
+	if grown := int64(after.TotalAlloc) - int64(before.TotalAlloc); grown > 32<<20 {
+		return fmt.Sprintf("handling a %d-byte body that declares Content-Length %d allocated %d MiB", actual, declared, grown>>20)
+	}
+	return ""
+}
+
 func families(tier string) []seq.Family {
 	small := []byte{0x00, 0x01, 0x02, 0x05, 0x0a, 0x12, 0x7f, 0x80, 0xff}
 	nRed, nHdr := 7, 5
@@ -400,6 +424,35 @@ func families(tier string) []seq.Family {
 			}
 			_ = json.Unmarshal(in, &v)
 			return hostileLengthCase(v.Max, v.Declared, false)
+		}},
+		{Name: "twirp-content-length", Run: func(ctx *seq.Ctx) {
+			for _, ct := range []string{"application/proto", "application/json", "", "text/whatever"} {
+				for _, declared := range []int64{-1, 0, 1, 3, 4 << 20, 4<<20 + 1, 64 << 20, 1 << 40, 1 << 47, 1 << 62, 1<<63 - 1} {
+					for _, actual := range []int{0, 3, 70000} {
+						ctx.Count(1, 1, 0)
+						m := ""
+						if declared > 64<<20 && os.Getenv("VERIF_ISOLATED") == "" {
+							// a gateway that trusts the declaration may exhaust memory: fatal, not a panic
+							m = seq.RunIsolated("C13", "twirp-content-length", map[string]any{"ct": ct, "declared": declared, "actual": actual})
+						} else {
+							m = lyingLengthCase(ct, declared, actual)
+						}
+						if m != "" {
+							ctx.Fail(fmt.Sprintf("%s ct=%q declared=%d actual=%d", m, ct, declared, actual), map[string]any{"ct": ct, "declared": declared, "actual": actual})
+						}
+					}
+				}
+			}
+			ctx.Class("returns")
+			ctx.Sample(map[string]any{"declared": "2^62", "actual": 3})
+		}, Replay: func(in json.RawMessage) string {
+			var v struct {
+				CT       string
+				Declared int64
+				Actual   int
+			}
+			_ = json.Unmarshal(in, &v)
+			return lyingLengthCase(v.CT, v.Declared, v.Actual)
 		}},
 		{Name: "error-chains<=4", Run: func(ctx *seq.Ctx) {
 			depth := 3
